@@ -14,6 +14,7 @@ mod c15;
 mod c16;
 mod engine;
 mod json;
+mod pipe;
 mod rng;
 mod stubs;
 mod values;
